@@ -88,3 +88,12 @@ claim("C07", "exploration",
       "announced vs carried length) are checked.",
       "SimMachine encodes the SCP memory commands as described by the controller's docstrings (trusted base); _window_size set directly.",
       "DESIGN.md section 4, C07")
+claim("C09", "fault_enumeration",
+      "The real load_application runs against a simulated machine that assembles and validates every flood fill (block count, numbering, "
+      "sizes, ids, selections before data and in increasing order). Part A: maps x binary sizes around buffer multiples x buffer {16,256} x "
+      "wait x verification mode. Part B: for maps of 1-2 binaries on <=3 chips x n_tries {0,1,2} x verification mode x initial core tables "
+      "(clean / target core already waiting / other core waiting under the same id), EVERY set of chips missing EVERY fill is enumerated "
+      "(no deviation bound). Oracle: normal return iff all requested cores hold their binary under the app id in the right state; error "
+      "names exactly the unloaded cores; retries address exactly the missing cores; attempts bounded; no other core changed.",
+      "SimMachine flood-fill semantics (a chip receives a whole fill or none); binaries are whole words.",
+      "DESIGN.md section 4, C09")
